@@ -24,6 +24,8 @@ func init() {
 func runC08(c *fw.Ctx) {
 	r81(c)
 	r82(c)
+	r83(c)
+	methodExprReceiver(c, "R8.4")
 }
 
 func r81(c *fw.Ctx) {
@@ -313,4 +315,64 @@ func isTypesMember(info *types.Info, e ast.Expr) bool {
 	}
 	s := t.String()
 	return s == "*go/types.Var" || s == "*go/types.Func"
+}
+
+// R8.3: the shallowest depth wins, so every depth-0 lookup of a type (its own fields: normalField; its own
+// methods: method) must have been tried before any lookup of promoted members (embeddedField, or field,
+// which falls through to it). On every path of findMember no depth-0 lookup may follow a promoted lookup.
+func r83(c *fw.Ctx) {
+	const rule = "R8.3"
+	fd, p := needDecl(c, rule, "(*CodeBuilder).findMember")
+	if fd == nil {
+		return
+	}
+	info := p.TypesInfo
+	paths, trunc := enumPathsN(info, fd.Body, 2)
+	if trunc {
+		c.Undecided(rule, "findMember/paths", fd.Pos(), "too many paths")
+		return
+	}
+	kind := func(call *ast.CallExpr) string {
+		fn, _ := callee(info, call).(*types.Func)
+		if fn == nil || fn.Pkg() == nil || fn.Pkg().Path() != fw.Mod {
+			return ""
+		}
+		switch shortName(fn) {
+		case "CodeBuilder.method", "CodeBuilder.normalField":
+			return "depth0"
+		case "CodeBuilder.embeddedField", "CodeBuilder.field":
+			return "promoted"
+		}
+		return ""
+	}
+	nPaths, nWithPromoted := 0, 0
+	bad := ""
+	var badPos token.Pos
+	for _, pa := range paths {
+		nPaths++
+		seenPromoted := ""
+		for _, call := range callsIn(pa.Nodes) {
+			switch kind(call) {
+			case "promoted":
+				if seenPromoted == "" {
+					nWithPromoted++
+				}
+				seenPromoted = exprString(call.Fun)
+			case "depth0":
+				if seenPromoted != "" && bad == "" {
+					bad = sprintf("%s is tried after %s", exprString(call.Fun), seenPromoted)
+					badPos = call.Pos()
+				}
+			}
+		}
+	}
+	if nWithPromoted == 0 {
+		c.Undecided(rule, "findMember/promoted-lookups", fd.Pos(), "no path of findMember performs a promoted-member lookup: the rule no longer recognises the lookup helpers")
+		return
+	}
+	if badPos == token.NoPos {
+		badPos = fd.Pos()
+	}
+	c.Check(bad == "", rule, "findMember/depth0-before-promoted", badPos,
+		"on %d paths (%d with a promoted lookup): %s — a member promoted from an embedded field would win over the type's own field or method of the same name", nPaths, nWithPromoted, bad)
 }
